@@ -140,18 +140,18 @@ def nontrivial(res):
     return any(o.startswith("snap I") for o in res["model"])
 
 
-def check(pid, tier, extra_hook=None):
+def check(pid, tier, extra_hook=None, sink=None):
     t0 = time.time()
     sc = vlib.Scratch()
     rc = 1
     try:
-        rc = _check(pid, tier, sc, t0, extra_hook)
+        rc = _check(pid, tier, sc, t0, extra_hook, sink)
     finally:
         sc.cleanup()
     return rc
 
 
-def _check(pid, tier, sc, t0, extra_hook):
+def _check(pid, tier, sc, t0, extra_hook, sink=None):
     rng = random.Random(vlib.SEED * 1000003 + int(pid[1:]))
     known = vlib.load_known()
     violations = []   # (tag, replay dict)
@@ -250,8 +250,11 @@ def _check(pid, tier, sc, t0, extra_hook):
                disagreements_checked=sum(1 for r in results if r["mismatch"]),
                known_findings=sorted(known_hits), search_histories=searched, distribution=st,
                proof_problems=proof["problems"])
-    vlib.write_evidence(pid, tier, "proof", cov, time.time() - t0, nviol,
-                        ["callbacks are pure; single goroutine", "Go slice semantics as modelled in Slice.lean"])
+    assumptions = ["callbacks are pure; single goroutine", "Go slice semantics as modelled in Slice.lean"]
+    if sink is not None:
+        sink.append((cov, nviol, assumptions))
+    else:
+        vlib.write_evidence(pid, tier, "proof", cov, time.time() - t0, nviol, assumptions)
     return rc
 
 
